@@ -17,7 +17,8 @@ RULE = ('(a) every element class created with xsd_check=False: seeded child sequ
         'must be identical (a refusing checked twin is inconclusive: that is C02). (c) a checked element inside an '
         'unchecked parent must still refuse a foreign child and refuse its own to_string while incomplete; a checked, '
         'complete parent with an unchecked child holding arbitrary grandchildren must serialise (the unchecked node is '
-        'exempt). non-trivial = a sequence with at least one child; distinct by (class, sequence)')
+        'exempt), and a checked, incomplete node BELOW an unchecked node below a checked root makes the root refuse until it is '
+        'completed. (a) includes one run of 300 children per class with replacement and removal at positions >= 257. non-trivial = a sequence with at least one child; distinct by (class, sequence)')
 ASSUMPTIONS = ['structural reasons = any exception from add_child / remove / replace_child / to_string on an unchecked element',
                'children are minimal unchecked instances unless stated']
 TIMEOUT = {'quick': 600, 'thorough': 2400}
@@ -51,7 +52,8 @@ def run_shard(shard, tier, seed):
         alpha = ref.DFAS[t].alphabet if t in ref.DFAS else []
         # ---------------- (a) unchecked element accepts anything, never raises, keeps insertion order
         for k in range(3 if tier == 'quick' else 25):
-            n = rnd.choice([1, 3, 8, 40]) if k else 5
+            # the last run of each class is long (300 children), and its replacement / removal hit late positions (>= 257)
+            n = (300 if k == 2 else rnd.choice([1, 3, 8, 40])) if k else 5
             names = [rnd.choice(alpha) if alpha and rnd.random() < 0.6 else rnd.choice(FOREIGN + ref.ELEMENT_NAMES[:40])
                      for _ in range(n)]
             if alpha and rnd.random() < 0.3:
@@ -87,14 +89,14 @@ def run_shard(shard, tier, seed):
                 v('unchecked-children-view-differs', t, case)
             # replace and remove
             if kids:
-                i = rnd.randrange(len(kids))
+                i = rnd.randrange(len(kids)) if len(kids) < 260 else rnd.randrange(257, len(kids))
                 new = lib.make(lib.child_cls(rnd.choice(FOREIGN)))
                 r = lib.call(e.replace_child, kids[i], new)
                 if r[0] == 'exc':
                     v('unchecked-replace-raises', t, case, {'msg': str(r[1])[:100]}, {'exc': type(r[1]).__name__})
                 else:
                     kids[i] = new
-                j = rnd.randrange(len(kids))
+                j = rnd.randrange(len(kids)) if len(kids) < 260 else rnd.randrange(257, len(kids))
                 r = lib.call(e.remove, kids[j])
                 if r[0] == 'exc':
                     v('unchecked-remove-raises', t, case, {'msg': str(r[1])[:100]}, {'exc': type(r[1]).__name__})
@@ -104,7 +106,13 @@ def run_shard(shard, tier, seed):
                 if r[0] == 'exc':
                     v('unchecked-to-string-raises', t, case, {'msg': str(r[1])[:100]}, {'exc': type(r[1]).__name__})
                 elif [x.tag for x in ET.fromstring(r[1])] != [x.name for x in kids]:
-                    v('unchecked-order-not-insertion-order', t, case, {'after': 'replace+remove'})
+                    v('unchecked-order-not-insertion-order', t, case, {'after': 'replace+remove', 'replaced_at': i, 'removed_at': j})
+                if [id(x) for x in e.get_children()] != [id(x) for x in kids] or \
+                        [id(x) for x in e.get_children(False)] != [id(x) for x in kids]:
+                    v('unchecked-children-view-differs', t, case, {'after': 'replace+remove', 'replaced_at': i, 'removed_at': j})
+                elif any(x.get_parent() is not e for x in kids):
+                    v('unchecked-child-parent-link-lost', t, case, {'after': 'replace+remove'})
+                c['long_runs'] += len(names) >= 260
             if len(samples) < 2:
                 samples.append(case)
         # ---------------- (d) children with a history: they were attached to (and detached from / replaced in) a checked
@@ -205,6 +213,46 @@ def run_shard(shard, tier, seed):
             if r[0] == 'exc':
                 v('unchecked-to-string-raises', t, {'cls': cn, 'part': 'c1'}, {'msg': str(r[1])[:100]},
                   {'exc': type(r[1]).__name__})
+        # ---------------- (c3) checked root > unchecked node > checked, INCOMPLETE node: the unchecked node is exempt, the
+        # checked node below it is not: the root must refuse to serialise (and serialise once the node is completed)
+        for mid_name in [s for s in d.alphabet if ref.eltype(s) in ref.DFAS][:2]:
+            comp = d.completion([mid_name])
+            if comp is None:
+                continue
+            # an element-content type that is invalid while empty, to sit below the unchecked node
+            low_name = next((x for x in ('pitch', 'time-modification', 'key-accidental', 'score-part') if x != mid_name), None)
+            lt = ref.eltype(low_name)
+            evals += 1
+            nontriv += 1
+            case = {'cls': cn, 'part': 'c3', 'middle': mid_name, 'low': low_name}
+            R = lib.make(cls, check=True, with_required=True)
+            mid = None
+            ok = True
+            for s in comp:
+                ch = lib.make(lib.child_cls(s))              # unchecked
+                if s == mid_name and mid is None:
+                    mid = ch
+                if lib.call(R.add_child, ch)[0] == 'exc':
+                    ok = False
+                    break
+            if not ok or mid is None or lib.call(R.to_string)[0] == 'exc':
+                c['c3_parent_itself_refuses'] += 1
+                continue
+            low = lib.make(lib.child_cls(low_name), check=True, with_required=True)
+            mid.add_child(low)
+            r = lib.call(R.to_string)
+            if r[0] == 'ok':
+                v('checked-node-below-unchecked-node-not-validated', t, case, {'output': r[1][:200]})
+            elif type(r[1]).__name__ != 'XMLElementChildrenRequired':
+                v('unchecked-node-inside-checked-tree-is-validated', t, case, {'msg': str(r[1])[:120]}, {'exc': type(r[1]).__name__})
+            # complete it: the root serialises
+            for s in ref.shortest_word(lt):
+                low.add_child(lib.make(lib.child_cls(s)))
+            r = lib.call(R.to_string)
+            if r[0] == 'exc':
+                v('unchecked-node-inside-checked-tree-is-validated', t, case, {'msg': str(r[1])[:120], 'after': 'completion'},
+                  {'exc': type(r[1]).__name__})
+            c['c3_mixed_trees'] += 1
         # ---------------- (c2) unchecked child inside a checked, complete parent is exempt
         w = ref.shortest_word(t)
         cand = [s for s in d.alphabet if ref.eltype(s) in ref.DFAS]
